@@ -33,6 +33,15 @@ def id_cmd(a):
     return "alloc %d" % a["v"]
 
 
+def ids_cmd(a):
+    k = a["a"]
+    if k == "open":
+        return "open %s" % a["kind"]
+    if k == "close":
+        return "close %s %d" % (a["kind"], a["i"])
+    return "cycle"
+
+
 def sig_lmq(acts, idx, step, allowed):
     a = acts[idx]["a"] if idx < len(acts) else "fin"
     hist = "-".join(sorted(set(x["a"] for x in acts[:idx])))
@@ -60,7 +69,7 @@ def sig_mq(acts, idx, step, allowed):
 
 
 def run(v, tier, rng):
-    run_parts(v, tier, rng, ("lmq", "mq", "mq3", "id"))
+    run_parts(v, tier, rng, ("lmq", "mq", "mq3", "id", "ids"))
 
 
 def run_parts(v, tier, rng, parts):
@@ -80,24 +89,35 @@ def run_parts(v, tier, rng, parts):
             # capacity 3 with ring wrap-around and growth: complete in the thorough tier, a seeded third of it in the quick tier
             ("mq3", "data/Msgq.tla", "Msgq_gen3.cfg", mq_cmd, lambda ia: "init %d" % ia["cap"], 30, sig_mq),
             ("id", "data/IdMap.tla", "IdMap_gen.cfg" if not thorough else "IdMap_gen2.cfg", id_cmd,
-             lambda ia: "init %d %d" % (ia["lo"], ia["hi"]), 60, None)]
+             lambda ia: "init %d %d" % (ia["lo"], ia["hi"]), 60, None),
+            # identifiers of sockets, contexts, dialers and listeners over nng_fini / nng_init cycles (data/Ids.tla)
+            ("ids", "data/Ids.tla", "Ids_gen.cfg", ids_cmd, lambda ia: "init", 40,
+             lambda acts, idx, step, allowed: "ids.%s:%s" % (acts[idx]["a"] if idx < len(acts) else "fin",
+                                                             ",".join(k for k in sorted((step[1] or {}) if step else {}) if allowed and (step[1] or {}).get(k) != (allowed[0]["out"] or {}).get(k)) or "obs"))]
     for obj, spec, cfg, to_cmd, init_cmd, maxlen, sigf in plan:
         if obj not in parts:
             continue
         g = tlc_edges(spec, cfg, timeout=1500)
         v.cov["states"] += g["distinct"]
         v.cov["transitions"] += len(g["edges"])
-        walks, total, covered = cover_walks(g, rng, maxlen=maxlen, limit=8000 if (obj == "mq3" and not thorough) else None)
+        if obj == "ids":
+            r = tlc(spec, "Ids_mc.cfg", workers=8, timeout=900)
+            tlc_require_ok(r, "Ids")
+            v.add_tlc("data/Ids.tla:Ids_mc.cfg", r)
+            r = tlc(spec, "Ids_defect.cfg", workers=4, timeout=900)
+            if r["status"] != "violation":
+                raise Broken("Ids_defect.cfg (cursor reset by nng_fini) does not violate FreshInv: the invariant is vacuous")
+        walks, total, covered = cover_walks(g, rng, maxlen=maxlen, limit=(8000 if (obj == "mq3" and not thorough) else 1500 if (obj == "ids" and not thorough) else None))
         extra = random_walks(g, rng, 2000 if thorough else 300, maxlen * 2)
         n = replay_walks(v, g, walks + extra, exe, "mq" if obj == "mq3" else obj, to_cmd, init_cmd, spec + ":" + cfg, sig_of=sigf,
-                         check_fin=(obj != "id"))
+                         check_fin=(obj not in ("id", "ids")))
         v.cov.setdefault("edge_cover", {})[obj] = dict(edges=total, covered=covered, walks=len(walks),
                                                       random_walks=len(extra), validated=n, states=g["nstates"])
         log("%s: %d/%d edges covered by %d walks (+%d random), %d validated" % (obj, covered, total, len(walks), len(extra), n))
     v.cov["distinct_nontrivial"] = sum(x["edges"] for x in v.cov["edge_cover"].values())
     v.cov["rule"] = ("every transition of the TLC state graphs of Lmq/Msgq/IdMap (gen configs) replayed on the real "
                      "functions at least once (edge cover) plus seeded random walks; distinct = distinct (state, action, state) edges")
-    v.cov["exhaustive_edge_cover"] = all(x["edges"] == x["covered"] for k, x in v.cov["edge_cover"].items() if k != "mq3" or thorough)
+    v.cov["exhaustive_edge_cover"] = all(x["edges"] == x["covered"] for k, x in v.cov["edge_cover"].items() if k not in ("mq3", "ids") or thorough)
     v.assumptions += ["the hand transcription of lmq.c/msgqueue.c/idhash.c into the implementation layer of the specs "
                       "is only used to choose behaviours; verdicts come from the abstract layer (FIFO / finite map)",
                       "ids of sockets/pipes/requests are covered through nni_id_map, which issues all of them"]
